@@ -59,15 +59,17 @@ Theorem add_specified_optional_keeps : forall e gs lo c r rows,
   rows <> [] /\ forall r', In r' rows -> sub_row r r'.
 Proof.
   intros e gs lo c r rows Hopt Hfix H. unfold add_specified_data in H.
-  rewrite Hfix, Hopt in H.
+  rewrite Hfix, Hopt in H. cbv zeta in H.
   repeat match type of H with
   | bind ?o _ = Ok _ => let E := fresh "E" in destruct o eqn:E; cbn [bind] in H; try discriminate
-  | (if ?b then _ else _) = Ok _ => let E := fresh "E" in destruct b eqn:E; try discriminate
+  | match ?x with ObjOk _ => _ | ObjNone => _ | ObjInvalid => _ end = Ok _ =>
+      let E := fresh "E" in destruct x eqn:E; try discriminate
+  | match ?l with [] => _ | _ :: _ => _ end = Ok _ => let E := fresh "E" in destruct l eqn:E
   end.
-  all: cbv zeta in H; inversion H; subst; split; try (cbn; discriminate).
-  - intros r' [<-|[]]. apply sub_row_merge.
-  - intros r' [<-|Hin]; [apply sub_row_merge|].
-    apply in_map_iff in Hin. destruct Hin as [nr [<- _]]. apply sub_row_merge.
+  all: inversion H; subst; split; try (cbn; discriminate).
+  all: try (intros r' [<-|[]]; apply sub_row_merge).
+  all: intros r' [<-|Hin]; [apply sub_row_merge|];
+    apply in_map_iff in Hin; destruct Hin as [nr [<- _]]; apply sub_row_merge.
 Qed.
 
 Theorem specify_optional_never_removes : forall e gs lo c rows out,
